@@ -1,8 +1,100 @@
+/-
+  C06 — binned metrics equal exhaustive per-threshold counting; the 'vectorized'
+  and 'memory' optimisation modes agree; binned AUROC / AUPRC with thresholds
+  starting at 0 equal the exact AUROC / AUPRC of the scores rounded down to the
+  nearest threshold.
+  ONLY property theorems and non-vacuity examples live here; helper lemmas are in
+  TE/Lemmas/Binned*.lean.  `Sorted (≤)` is `List.Pairwise (· ≤ ·)` (non-strict:
+  duplicated thresholds are allowed everywhere).
+-/
 import TE.Model.Binned
 import TE.Spec.Binned
+import TE.Lemmas.Binned
 namespace TE.C06
-open TE TE.Binned TE.Spec.Binned
+open TE TE.Binned TE.Spec.Binned TE.BinnedL
 
-theorem stub : searchsortedRight [] 0 = 0 := rfl
+/-! ## 1. the bucket index -/
+
+/-- the parameter check `not (diff(threshold) < 0).any()` is sortedness. -/
+theorem paramCheck_sorted (t : List Q) (h : paramCheck t = .ok ()) : t.Pairwise (· ≤ ·) := by
+  unfold paramCheck at h
+  by_cases hs : sortedB t = true
+  · exact sortedB_pairwise t hs
+  · simp [hs] at h
+
+/-- `searchsorted(t, x, right=True) - 1 ≥ j  ↔  t[j] ≤ x` on a sorted (possibly
+    repeating) threshold list: a score exactly on a threshold belongs to that
+    threshold's bucket, a score below `t[0]` has bucket `-1`. -/
+theorem bucket_ge_iff (t : List Q) (x : Q) (hs : t.Pairwise (· ≤ ·)) (j : Nat) (hj : j < t.length) :
+    (j : Int) ≤ bucket t x ↔ t[j] ≤ x := by
+  rw [← lt_ss_iff t x hs j hj]; unfold bucket; omega
+
+/-- the bucket index never exceeds the last threshold's index. -/
+theorem bucket_lt_length (t : List Q) (x : Q) : bucket t x < t.length := by
+  have := ss_le_length t x; unfold bucket; omega
+
+example : ([0, 1/4, 1/4, 1/2] : List Q).Pairwise (· ≤ ·) := by decide +kernel
+example : bucket [0, 1/4, 1/4, 1/2] (1/4) = 2 ∧ bucket [1/4, 1/2] (1/8) = -1 ∧ bucket [1/4, 1/2] 1 = 1 := by decide +kernel
+
+/-! ## 2. binary `_update`: suffix sums of the unit histogram = per-threshold counting -/
+
+/-- `num_tp[j] = #{y=1 ∧ x ≥ t[j]}`, `num_fp[j] = #{y=0 ∧ x ≥ t[j]}`, `num_fn[j] = #{y=1 ∧ x < t[j]}`
+    for every sorted threshold list (duplicates allowed, scores anywhere: a score below `t[0]` is
+    dropped from TP/FP and kept in FN). -/
+theorem binned_counts_eq (t xs : List Q) (ys : List Nat)
+    (hs : t.Pairwise (· ≤ ·)) (hne : t ≠ []) (hlen : xs.length = ys.length) (hy : ∀ y ∈ ys, y ≤ 1) :
+    binaryUpdate t xs ys = .ok
+      (t.map fun u => (tpAt (xs.zip ys) u : Q),
+       t.map fun u => (fpAt (xs.zip ys) u : Q),
+       t.map fun u => (fnAt (xs.zip ys) u : Q)) := by
+  have hT : t.length ≠ 0 := by simpa using hne
+  have hcodes : ((xs.zip ys).map fun p => binaryCode t p.1 p.2)
+      = codesOf 1 (fun p _ => searchsortedRight t p.1) (fun p _ => p.2) (xs.zip ys) := by
+    simp [codesOf, binaryCode_eq, List.range_one, flatMap_single]
+  have hc : ∀ a ∈ xs.zip ys, ∀ s, s < 1 → (fun (p : Q × Nat) (_ : Nat) => searchsortedRight t p.1) a s ≤ t.length :=
+    fun a _ s _ => ss_le_length t a.1
+  have hb : ∀ a ∈ xs.zip ys, ∀ s, s < 1 → (fun (p : Q × Nat) (_ : Nat) => p.2) a s ≤ 1 :=
+    fun a ha s _ => hy a.2 (List.of_mem_zip ha).2
+  have hrow : ∀ r, r ≤ 1 →
+      suffixSums ((List.range t.length).map fun k =>
+        (histcUnit (2 * t.length) ((xs.zip ys).map fun p => binaryCode t p.1 p.2)).getD (2 * k + r) 0)
+      = (List.range t.length).map fun k =>
+          qcount (fun p : Q × Nat => decide (k < searchsortedRight t p.1) && p.2 == r) (xs.zip ys) := by
+    intro r hr
+    have := memLine_eq t.length 1 _ _ (xs.zip ys) hc hb 0 r (by omega) hr
+    simpa [memLine, hcodes] using this
+  have htp : ((List.range t.length).map fun k =>
+          qcount (fun p : Q × Nat => decide (k < searchsortedRight t p.1) && p.2 == 1) (xs.zip ys))
+      = t.map fun u => (tpAt (xs.zip ys) u : Q) := by
+    apply map_range_eq_map
+    intro k hk
+    show qcount _ _ = qcount _ _
+    apply qcount_congr
+    intro p _
+    rw [Bool.and_comm]; congr 1
+    exact decide_eq_decide.mpr (lt_ss_iff t p.1 hs k hk)
+  have hfp : ((List.range t.length).map fun k =>
+          qcount (fun p : Q × Nat => decide (k < searchsortedRight t p.1) && p.2 == 0) (xs.zip ys))
+      = t.map fun u => (fpAt (xs.zip ys) u : Q) := by
+    apply map_range_eq_map
+    intro k hk
+    show qcount _ _ = qcount _ _
+    apply qcount_congr
+    intro p _
+    rw [Bool.and_comm]; congr 1
+    exact decide_eq_decide.mpr (lt_ss_iff t p.1 hs k hk)
+  have hsum : qsum (ys.map fun y => ((y : Nat) : Q)) = (((xs.zip ys).countP fun p => p.2 == 1 : Nat) : Q) := by
+    rw [qsum_nat01 ys hy, countP_snd_zip xs ys hlen (· == 1)]
+  unfold binaryUpdate
+  simp only [hT, if_false, hrow 1 (by omega), hrow 0 (by omega), htp, hfp, hsum, List.map_map]
+  congr 3
+  apply List.map_congr_left
+  intro u _
+  simp only [Function.comp, pos_split (xs.zip ys) u, Rat.natCast_add]
+  grind
+
+example : binaryUpdate [1/4, 1/4, 1/2] [1/8, 1/4, 1/2, 1] [1, 0, 1, 1] = .ok ([2, 2, 2], [1, 1, 0], [1, 1, 1]) := by
+  rw [binned_counts_eq _ _ _ (by decide +kernel) (by decide +kernel) (by decide +kernel) (by decide +kernel)]
+  simp [tpAt, fpAt, fnAt]; decide +kernel
 
 end TE.C06
